@@ -44,6 +44,13 @@ func contextCheck(r *vrt.Result) string {
 		}
 	}
 	if r.Status != vrt.StOK {
+		if !sawPhase1 && nf == 0 {
+			for _, e := range r.Events {
+				if e.Kind == "input" && (e.Str(0) == "a" || e.Str(0) == "b") {
+					return fmt.Sprintf("f-not-run: a context was cancelled but the chained function never ran (%s): %v", r.Status, r.Blocked)
+				}
+			}
+		}
 		return fmt.Sprintf("not-cancelled: the result never became cancelled (%s): %v", r.Status, r.Blocked)
 	}
 	if !end {
